@@ -119,9 +119,11 @@ def reference(order, periods, events, stamps, add=lambda a, b: a + b):
     abort_pending = set()
     out = []
     states = []
+    reference.dead_before = []       # per tick: names that had left the schedule before it
     for j, S in enumerate(stamps):
         if not alive:
             break
+        reference.dead_before.append(set(order) - set(alive))
         ran = []
         for n in list(alive):
             if due[n] > S:
@@ -240,6 +242,7 @@ def check_cfg(cfg, H, p):
     fperiods = {n: float(m * T) for n, m in zip(names, mults)}
     fevents = tuple((a, j, kind, tg, None if new is None else max(0.0, float(new * T))) for a, j, kind, tg, new in events)
     ref, _, alive_end = reference(order, fperiods, fevents, stamps)
+    dead_before = reference.dead_before
     idx = {s: i for i, s in enumerate(stamps)}
     if len(idx) != len(stamps):
         p.violation("stamps-not-increasing", cs, "tick stamps repeat: %r" % (stamps,), dict(config=cs, stamps=stamps))
@@ -266,7 +269,6 @@ def check_cfg(cfg, H, p):
             p.violation("tick-time-not-ideal", cs, "stamps %r are not t0 + j*tick" % (stamps,), dict(config=cs, stamps=stamps))
             return
     # compare tick by tick
-    dead = set()
     expected_len = len(ref)
     for j in range(max(len(ticks), expected_len)):
         real_j = ticks[j] if j < len(ticks) else None
@@ -281,16 +283,13 @@ def check_cfg(cfg, H, p):
             return
         p.transitions += len(real_j)
         if [n for n, c in real_j] != ref_j:
-            g = diagnose(real_j, ref_j, dead)
+            g = diagnose(real_j, ref_j, dead_before[j] if j < len(dead_before) else set(order))
             p.violation("schedule|" + g, cs,
                         "tick %d (time %r): ran %r, the statement's scheduler runs %r [%s]"
                         % (j, stamps[j], [n for n, c in real_j], ref_j, g),
                         dict(config=cs, tick=j, stamps=stamps, observed=[[n for n, c in t] for t in ticks], expected=ref,
                              how="House with ScriptTaskers a,b,c (period = mult*tick, placement as named) under Skedder(period=tick, stamp=t0)"))
             return
-        # who is dead after this tick according to the real run: generator ended or yielded ABORTED
-    # every tasker still scheduled when the horizon interrupt came is swept once (C03 owns this; here only
-    # used to make sure the sweep/pass separation above was consistent)
     if exact:
         # arithmetic ideal: the same recurrence in exact rationals over ideal stamps
         iperiods = {n: m * T for n, m in zip(names, mults)}
@@ -311,7 +310,6 @@ def check_cfg(cfg, H, p):
             p.nontrivial(repr(tuple((n, d / T, q / T) for n, d, q in st)))
         if iref != ref:
             p.notes["decimal configurations whose run ticks differ from the decimal ideal (float accumulation)"] += 1
-            late = 0
             p.outcome("decimal: equals the recurrence on observed stamps; differs from decimal ideal")
             if not p.extra.get("decimal_drift_example"):
                 p.extra["decimal_drift_example"] = dict(config=cs, observed=ref, decimal_ideal=iref, stamps=stamps)
